@@ -41,8 +41,10 @@ type API struct {
 	Log   []Request
 	// FailAt: index (within the log since the last ResetCall) of the request to fail; -1 = none.
 	FailAt   int
-	FailKind string // "http400" | "success-false" | "bad-json"
-	callBase int
+	FailKind string // "http400" | "success-false" | "success-false-no-errors" | "bad-json"
+	// MaxPerPage > 0: the server caps the page size (it answers with fewer items per page than asked and says so in result_info.per_page)
+	MaxPerPage int
+	callBase   int
 }
 
 func New(zones []*Zone) *API { return &API{Zones: zones, FailAt: -1} }
@@ -72,6 +74,8 @@ func (a *API) RoundTrip(req *http.Request) (*http.Response, error) {
 			return jsonResp(req, 400, `{"success":false,"errors":[{"code":9000,"message":"bad request"}]}`), nil
 		case "success-false":
 			return jsonResp(req, 200, `{"success":false,"errors":[{"code":10000,"message":"Authentication error"}],"result":null}`), nil
+		case "success-false-no-errors":
+			return jsonResp(req, 200, `{"success":false,"errors":[],"messages":[],"result":null}`), nil
 		case "bad-json":
 			return jsonResp(req, 200, `{"success":tru`), nil
 		}
@@ -103,6 +107,9 @@ func (a *API) RoundTrip(req *http.Request) (*http.Response, error) {
 		}
 		if per < 1 {
 			per = 100
+		}
+		if a.MaxPerPage > 0 && per > a.MaxPerPage {
+			per = a.MaxPerPage
 		}
 		type rec struct {
 			ID   string `json:"id"`
